@@ -120,6 +120,38 @@ def degenerate_world(rng, i):
     return w, kind
 
 
+def near_miss_world(rng, i):
+    import hashlib
+    w = worldgen.World()
+    n = rng.choice([1, 3, 4, 7])
+    L = rng.choice([2, 4, 8])
+    content = worldgen.rand_content(rng, n)
+    hashes = b"".join(hashlib.sha1(content[k:k + L]).digest() for k in range(0, n, L))
+    bad = rng.choice([b"..", b"", b".", b"a/b", b"/abs", b"../x"])
+    where = ["name.utf-8", "name", "path.utf-8", "path"][i % 4]
+    info = {b"piece length": L, b"pieces": hashes}
+    if where.startswith("name"):
+        info[b"length"] = n
+        info[b"name"] = b"plain" if where == "name.utf-8" else bad
+        if where == "name.utf-8":
+            info[b"name.utf-8"] = bad
+    else:
+        info[b"name"] = b"plain"
+        f = {b"length": n, b"path": [b"sub", b"leaf"] if where == "path.utf-8" else [b"sub", bad]}
+        if where == "path.utf-8":
+            f[b"path.utf-8"] = [bad, b"leaf"] if rng.random() < 0.5 else [b"sub", bad]
+        info[b"files"] = [f]
+    w.put_dir((b"scan0",)); w.put_dir(w.export)
+    w.scans = [(b"scan0",)]
+    for k in range(rng.choice([2, 3])):
+        w.put_file((b"scan0", b"cand%d" % k), content if k == 0 else worldgen.corrupt(rng, content))
+    w.put_file((b"loose.bin",), b"outside everything")
+    w.presented = [docgen.enc({b"info": info})]
+    w.threads = rng.choice([1, 2])
+    w.notes["near"] = "%s=%r" % (where, bad)
+    return w
+
+
 def cli_binary():
     env = {"CARGO_TARGET_DIR": os.path.join(vlib.HARNESS, "target-cli")}
     rc, out, err = vlib.sh(["cargo", "build", "--offline", "--quiet", "--bin", "torrent_bootstrap"], cwd=vlib.REPO, env=env, timeout=1800)
@@ -203,6 +235,13 @@ def correspondence(ctx):
             w.presented = list(w.presented)
             w.presented.insert(rng.randrange(len(w.presented) + 1), rng.choice(GARBAGE))
         scen2.append((runprops.Scenario("none", ctx["seed"], i, {"mode": "none" if i % 2 == 0 else "mixed"}), w))
+    # documents one step away from loadable: a degenerate value ('..', '', '.', a separator, an absolute path) in the
+    # name / path variant the loader would USE, everything else well-formed, and several files of the declared length
+    # on disk (so that a loader that lets one through reaches the candidate ranking and the writer)
+    for i in range(24 if tier == "quick" else 160):
+        rng = vlib.rng_for(ctx["seed"], "C16near/%d" % i)
+        w = near_miss_world(rng, i)
+        scen2.append((runprops.Scenario("none", ctx["seed"], 1000 + i, {"mode": "none", "near": w.notes["near"]}), w))
     r2 = runprops.run_scenarios(ctx, scen2)
     for r in r2:
         runs.append(r)
@@ -266,7 +305,7 @@ def correspondence(ctx):
         if bad and len(findings) < 5:
             findings.append({"scenario": {"tag": "cli", "world_seed": ctx["seed"], "index": c["i"]}, "violated_clause": bad, "stderr": c["stderr"][-400:]})
     out = runprops.result("C16", ctx, runs, findings, broken, dict(stats),
-                          "bad path of every kind (relative / missing / a file; also missing or a file INSIDE a valid scan directory, added next to the valid ones) in every position (each scan directory, the export directory); no loadable torrent; unloadable documents among loadable ones; degenerate loadable torrents (padding-only pieces, empty files, 2^46-byte declared lengths, odd names); the CLI binary with unloadable torrent files; each run in a child process",
+                          "near-loadable documents (a degenerate value in the name / path variant the loader uses, same-length files on disk); bad path of every kind (relative / missing / a file; also missing or a file INSIDE a valid scan directory, added next to the valid ones) in every position (each scan directory, the export directory); no loadable torrent; unloadable documents among loadable ones; degenerate loadable torrents (padding-only pieces, empty files, 2^46-byte declared lengths, odd names); the CLI binary with unloadable torrent files; each run in a child process",
                           "bad_path_no_effect (prelude program), solve_prog_good (no panic), load_total proved; tied to the code by trace validation and child-process outcomes")
     out["known_lines"] = sorted(known_lines)
     out["evaluations"] = len(runs) + stats["cli runs"]
